@@ -39,7 +39,7 @@ impl CidTxn {
 impl CidCell { pub fn write(&self) -> (r: CidTxn) ensures r.v == self.max { CidTxn { v: Cid { ts: self.max.ts, s_uuid: self.max.s_uuid } } } }
 pub struct Backend { pub o: u8 }
 pub struct BackendWriteTransaction { pub o: u8 }
-impl Backend { #[verifier::external_body] pub fn write(&self) -> (r: Result<BackendWriteTransaction, OperationError>) { unimplemented!() } }
+impl Backend { #[verifier::external_body] pub fn write(&self) -> (r: Result<BackendWriteTransaction, OperationError>) ensures r matches Ok(t) ==> t.of() == *self { unimplemented!() } }
 // the storage transaction: remembers the maximum change time written into it; `stored_ok(b)` = its commit reported success
 pub uninterp spec fn stored_ok(b: BackendWriteTransaction) -> bool;
 // C04 protocol for the commit path: server-wide state (change-id maximum, schema, domain info, configuration, phase, caches, key
@@ -85,16 +85,43 @@ pub struct QueryServerWriteTransaction {
     pub _db_ticket: SemaphorePermit, pub _write_ticket: SemaphorePermit, pub resolve_filter_cache_clear: bool,
     pub resolve_filter_cache_write: Txn<CacheInner>, pub resolve_filter_cache: Txn<CacheInner>, pub dyngroup_cache: Txn<DynGroupCache>, pub txn_name_to_uuid: NameMap,
 }
+pub struct Semaphore { pub o: u8 }
 pub struct QueryServer {
     pub phase: Cell<ServerPhase>, pub d_info: Cell<DomainInfo>, pub system_config: Cell<SystemConfig>, pub feature_config: Cell<FeatureConfig>,
     pub be: Backend, pub schema: SchemaCell, pub accesscontrols: FallibleCell, pub cid_max: CidCell,
     pub resolve_filter_cache: Cell<CacheInner>, pub dyngroup_cache: Cell<DynGroupCache>, pub key_providers: FallibleCell,
+    pub db_tickets: Semaphore, pub read_tickets: Semaphore, pub write_ticket: Semaphore,
 }
+// start-up: what the storage holds (server uuid, domain uuid, the maximum change time persisted by the last successful commit)
+impl Backend {
+    pub uninterp spec fn stored_s_uuid(&self) -> Uuid;
+    pub uninterp spec fn stored_ts_max(&self) -> Duration;
+    #[verifier::external_body] pub fn get_pool_size(&self) -> (r: u32) ensures r > 0 { unimplemented!() }      // the code asserts this (debug_assert!(pool_size > 0))
+}
+impl BackendWriteTransaction {
+    pub uninterp spec fn of(&self) -> Backend;
+    #[verifier::external_body] pub fn get_db_s_uuid(&mut self) -> (r: Result<Uuid, OperationError>) ensures final(self).of() == old(self).of(), r matches Ok(u) ==> u == old(self).of().stored_s_uuid() { unimplemented!() }
+    #[verifier::external_body] pub fn get_db_d_uuid(&mut self) -> (r: Result<Uuid, OperationError>) ensures final(self).of() == old(self).of() { unimplemented!() }
+    // get_db_ts_max(curtime): the persisted maximum (or, on a fresh database, the current time, which it then stores)
+    #[verifier::external_body] pub fn get_db_ts_max(&mut self, curtime: Duration) -> (r: Result<Duration, OperationError>)
+        ensures final(self).of() == old(self).of(), r matches Ok(t) ==> t == old(self).of().stored_ts_max() && t.wf() && t.dlt(Duration::MAX) { unimplemented!() }
+}
+pub struct Schema { pub o: u8 }
+pub struct StringOpaque { pub o: u8 }
+impl StringOpaque { #[verifier::external_body] pub fn clone(&self) -> (r: StringOpaque) { unimplemented!() } }
+#[verifier::external_body] pub fn kvx_domain_info_cell(d_uuid: Uuid, name: StringOpaque) -> (r: Cell<DomainInfo>) { unimplemented!() }
+#[verifier::external_body] pub fn kvx_new_cell<T: Copy>() -> (r: Cell<T>) { unimplemented!() }
+#[verifier::external_body] pub fn kvx_schema_cell(s: Schema) -> (r: SchemaCell) { unimplemented!() }
+#[verifier::external_body] pub fn kvx_fallible_cell() -> (r: FallibleCell) { unimplemented!() }
+pub fn kvx_cid_cell(c: Cid) -> (r: CidCell) ensures r.max == c { CidCell { max: c } }                 // Arc::new(CowCell::new(cid))
+#[verifier::external_body] pub fn kvx_semaphore(n: usize) -> (r: Semaphore) { unimplemented!() }
+#[verifier::external_body] pub fn kvx_filter_cache() -> (r: Result<Cell<CacheInner>, OperationError>) { unimplemented!() }
 pub open spec fn dsecs(n: u64) -> Duration { Duration { secs: n, nanos: 0 } }
 impl QueryServer {
     // semaphore acquisition (tokio): opaque
     #[verifier::external_body] pub fn write_acquire_ticket(&self) -> (r: Option<(SemaphorePermit, SemaphorePermit)>) { unimplemented!() }
 //@extract qs_write
+//@extract qs_new
 }
 impl QueryServerWriteTransaction {
     // reload of schema / access controls / domain info from changed entries (C04: not decided); leaves the change id and the storage transaction's time alone
